@@ -104,6 +104,7 @@ func exporterChild(a []string) {
 
 type c14Transport struct {
 	handler   http.Handler
+	onlyName  string // if set, the fault mode applies to this cache name only
 	mode      string // "", tamper, truncate, failbody
 	cut       int
 	statuses  map[string]int
@@ -132,8 +133,15 @@ func (t *c14Transport) RoundTrip(req *http.Request) (*http.Response, error) {
 	if t.transport != nil {
 		return t.transport(req)
 	}
+	if err := req.Context().Err(); err != nil {
+		return nil, err // a real transport honours the request context
+	}
 	name := req.URL.Query().Get("name")
-	if t.mode == "tamper" {
+	mode := t.mode
+	if t.onlyName != "" && name != t.onlyName {
+		mode = "" // the transport fault hits one cache only
+	}
+	if mode == "tamper" {
 		q := req.URL.Query()
 		h, _ := strconv.ParseUint(q.Get("typesHash"), 10, 64)
 		q.Set("typesHash", strconv.FormatUint(h^0x5555, 10))
@@ -145,7 +153,7 @@ func (t *c14Transport) RoundTrip(req *http.Request) (*http.Response, error) {
 	t.statuses[name] = resp.StatusCode
 	body, _ := io.ReadAll(resp.Body)
 	t.bodyLens[name] = len(body)
-	switch t.mode {
+	switch mode {
 	case "truncate":
 		cut := t.cut
 		if cut > len(body) {
@@ -169,7 +177,7 @@ func init() {
 			"transport modes {normal, typesHash tampered, body truncated at k, body failing at k}; oracle: common names equal the exporter's content, names unknown to the exporter get 404 and keep their sentinel entries, tampered hash gets 400 and nothing is imported, " +
 			"truncated/failing bodies import a subset without panic; types hash: child processes register seeded permutations/multisets of a pool of 12 types (equal sets => equal hash in every process, set plus one type => different hash); " +
 			"a genuinely separate exporter process with a different type set serves over stdin/stdout and nothing may be imported; distinct_nontrivial = distinct (names on both sides, mode, backend pairing) transfer cells + distinct type sets hashed",
-		Required:    []string{"transfers.normal", "transfers.tampered", "transfers.truncated", "transfers.failbody", "status.404", "status.400", "status.200", "hash.processes", "hash.sets_compared", "hash.added_type_differs", "hash.variadic_groupings", "twoprocess.transfers", "entries.imported", "transfers.hostile_names"},
+		Required:    []string{"transfers.normal", "transfers.tampered", "transfers.truncated", "transfers.failbody", "status.404", "status.400", "status.200", "hash.processes", "hash.sets_compared", "hash.added_type_differs", "hash.variadic_groupings", "twoprocess.transfers", "entries.imported", "transfers.hostile_names", "transfers.fault_on_one_cache_only"},
 		Assumptions: []string{"GobTypesHashReset is a test helper and is never called; the registered set is what a fresh process registered"},
 		Timeout:     func(string) time.Duration { return 45 * time.Minute },
 	})
@@ -263,6 +271,10 @@ func c14Transfer(b *Batch, idx int) {
 	}
 	mode := []string{"", "", "tamper", "truncate", "failbody"}[rng.Intn(5)]
 	tr := &c14Transport{handler: exp.Export(), mode: mode, cut: rng.Intn(600), statuses: map[string]int{}, bodyLens: map[string]int{}}
+	if mode != "" && rng.Intn(2) == 0 {
+		tr.onlyName = names[rng.Intn(len(names))]
+		b.R.Count("transfers.fault_on_one_cache_only", 1)
+	}
 	imp.Transport = tr
 	err := imp.Import(bg, "http://exporter.invalid/export")
 	b.R.Eval()
@@ -309,6 +321,10 @@ func c14Transfer(b *Batch, idx int) {
 			continue
 		}
 		srcSnap, _, _, _ := snapshot(s.src)
+		mode := mode
+		if tr.onlyName != "" && nm != tr.onlyName {
+			mode = "" // this cache's own transfer was healthy: it must be complete whatever happened to the others
+		}
 		switch mode {
 		case "tamper":
 			if st != http.StatusBadRequest {
